@@ -21,6 +21,7 @@ from harness import values as V
 from harness.core import cbool, clist, copt, cz, err_name
 
 PID = "C05"
+TRANSLATE = ["EqDispatch.v"]     # translator tie: coq/gen_proofs/EqDispatch.v is re-proved against definitions regenerated from /repo
 PRELUDE = ("From Coq Require Import List ZArith.\nImport ListNotations.\n"
            "From Serif Require Import Base.PyVal Model.Elementwise Corr.C05.")
 FAILING = "C05.failing"
